@@ -1,8 +1,6 @@
 package main
 
-import "golang.org/x/tools/go/ssa"
 
 func ruleC19Helpers(w *World, r *Report) {}
 func ruleC17R2(w *World, r *Report)      {}
 
-func (w *World) deadPanic(p *ssa.Panic) (Status, string) { return Undecided, "not implemented" }
